@@ -643,7 +643,7 @@ def run_check(prop, tier, seed, obligations, ctx, level, functions, assumptions,
         cov["bounded_discharged"], cov["cbmc_properties_checked"], wall))
     if violations:
         return 1
-    if infra:
+    if infra or degraded:      # an auxiliary proof step failed: not a violation, but the property was NOT shown either
         return 2
     return 0
 
